@@ -572,7 +572,7 @@ def check_unit(ctx, d, name, u, lang, plat, use_gcc, use_patterns=True):
                     % (lang, plat.name, txt, u.lines[line - 1].strip(), vk, vv, tok.str, tok.col, cdump.vtype(tok), why))
             if DBG is not None:
                 DBG.append((kind, plat.name, lang, txt, vv, str(cdump.vtype(tok)), why))
-            ctx.violation(keyof(txt, plat, lang), what, files={name: text},
+            exprcmp.report(ctx, keyof(txt, plat, lang), what, files={name: text},
                           cmd='cppcheck --dump -q --language=%s %s %s   # line %d' % (
                               lang, parg if not plat.generated else '--platform=<generated %s.xml>' % plat.name, name, line))
 
